@@ -681,6 +681,8 @@ def _node_representer(dumper, node):
                     assert tag.startswith('!null')
                     with dumper.force_unquoted():
                         return dumper.represent_scalar(tag, '', style='')
+                if isinstance(data, ConfigScalar) and isinstance(data, str):
+                    return dumper.represent_scalar(tag, data._dyn_base(data)) # a tagged string is always quoted by yaml
                 with dumper.force_unquoted():
                     if isinstance(data, ConfigScalar):
                         return dumper.represent_scalar(tag, repr(data._dyn_base(data)))
